@@ -737,3 +737,94 @@ def result_edges(body, value_locals):
         if e["ok_edge"] and e["err_edge"] and e["ok_edge"] != e["err_edge"]:
             out.append(e)
     return out
+
+
+def bool_explore(body, starts, stop_blocks, atom_calls, max_paths=4096):
+    """Path-sensitive exploration of a (loop-free) CFG region over boolean values: a tiny abstract interpreter that knows
+    constants, copies, `!`, and the results of the calls in `atom_calls` (dict call-block -> atom name); every other
+    boolean is a fresh atom (both values explored).  A switch on a boolean whose value is known follows only the
+    feasible edge, so `let f = a || b; if f {..}` is explored like `if a || b {..}`.
+    Returns [(atom assignment dict, [blocks visited in order])] for every feasible path from `starts` to a block of
+    `stop_blocks` or a return; raises ValueError when the region is cyclic or too large."""
+    out = []
+    stop_blocks = set(stop_blocks)
+
+    def val(env, op):
+        c = op_const(op)
+        if c is not None:
+            return bool(c["v"]) if c.get("ty") == "bool" and "v" in c else None
+        pl = op_place(op)
+        if pl and len(pl) == 1:
+            return env.get(pl[0])
+        return None
+
+    def run(bb, env, atoms, trail):
+        if len(out) > max_paths or len(trail) > 400:
+            raise ValueError("region too large")
+        if bb in trail:
+            raise ValueError("cyclic region")
+        trail = trail + [bb]
+        if bb in stop_blocks and len(trail) > 1:
+            out.append((dict(atoms), trail))
+            return
+        blk = body.blocks[bb]
+        env = dict(env)
+        for s in blk["s"]:
+            if "l" not in s or len(s["l"]) != 1:
+                continue
+            r = s["r"]
+            l = s["l"][0]
+            v = None
+            if r["k"] in ("use", "cast"):
+                v = val(env, r["o"])
+            elif r["k"] == "un" and r["op"] == "Not":
+                x = val(env, r["a"])
+                v = None if x is None else (not x)
+            if v is None:
+                env.pop(l, None)
+            else:
+                env[l] = v
+        t = blk["term"]
+        if t["k"] == "return":
+            out.append((dict(atoms), trail))
+            return
+        if t["k"] == "call" and bb in atom_calls and len(t["d"]) == 1:
+            name = atom_calls[bb]
+            if name in atoms:
+                env[t["d"][0]] = atoms[name]
+                for nx in succs(body, bb):
+                    run(nx, env, atoms, trail)
+            else:
+                for choice in (True, False):
+                    a2 = dict(atoms)
+                    a2[name] = choice
+                    e2 = dict(env)
+                    e2[t["d"][0]] = choice
+                    for nx in succs(body, bb):
+                        run(nx, e2, a2, trail)
+            return
+        if t["k"] == "call" and len(t.get("d", [])) == 1:
+            env.pop(t["d"][0], None)
+        if t["k"] == "switch":
+            pl = op_place(t["d"])
+            known = env.get(pl[0]) if pl and len(pl) == 1 else None
+            if known is not None and body.local_ty(pl[0]) == "bool":
+                tgt = dict((v, tb) for v, tb in t["ts"])
+                nx = tgt.get(1 if known else 0, t.get("else"))
+                run(nx, env, atoms, trail)
+                return
+            if pl and len(pl) == 1 and body.local_ty(pl[0]) == "bool":
+                # unknown boolean: a fresh atom named after its switch block
+                name = "bb%d" % bb
+                tgt = dict((v, tb) for v, tb in t["ts"])
+                for choice in (True, False):
+                    a2 = dict(atoms)
+                    a2[name] = choice
+                    run(tgt.get(1 if choice else 0, t.get("else")), env, a2, trail)
+                return
+        for nx in succs(body, bb):
+            run(nx, env, atoms, trail)
+
+    for s0 in starts:
+        run(s0, {}, {}, [])
+    return out
